@@ -204,13 +204,13 @@ func (vc *VC) planUpdates() {
 		}
 		wantA[site] = append(wantA[site], a)
 	}
-	want := map[string]*UpdateClause{}
+	want := map[string][]*UpdateClause{}
 	for _, u := range vc.fc.Updates {
 		site := u.Site
 		if !strings.Contains(site, "#") {
 			site += "#1"
 		}
-		want[site] = u
+		want[site] = append(want[site], u)
 	}
 	counts := map[string]int{}
 	used := map[string]bool{}
@@ -219,8 +219,8 @@ func (vc *VC) planUpdates() {
 			for _, k := range vc.siteKeys(ins) {
 				counts[k]++
 				full := fmt.Sprintf("%s#%d", k, counts[k])
-				if u, ok := want[full]; ok {
-					vc.updatesAt[ins] = append(vc.updatesAt[ins], u)
+				if us, ok := want[full]; ok {
+					vc.updatesAt[ins] = append(vc.updatesAt[ins], us...)
 					used[full] = true
 				}
 				if as, ok := wantA[full]; ok {
